@@ -354,4 +354,735 @@ theorem orArgs_paths (t : Ty) : ((orArgs t).map (·.1)).Nodup ∧ ∀ e ∈ orAr
         simp [pre]
   | _ => simp [orArgs]
 
+/-! ### Python `==` on objects decides equality of the modelled objects -/
+mutual
+  theorem PyObj.beq_sound : (a b : PyObj) → PyObj.beq a b = true → a = b
+    | .none, b, h => by cases b <;> simp_all [PyObj.beq]
+    | .unit, b, h => by cases b <;> simp_all [PyObj.beq]
+    | .bool x, b, h => by cases b <;> simp_all [PyObj.beq]
+    | .int x, b, h => by cases b <;> simp_all [PyObj.beq]
+    | .str x, b, h => by cases b <;> simp_all [PyObj.beq]
+    | .bytes x, b, h => by cases b <;> simp_all [PyObj.beq]
+    | .tuple xs, b, h => by
+      cases b with
+      | tuple ys => simp only [PyObj.beq] at h; rw [PyObj.beqList_sound xs ys h]
+      | _ => simp [PyObj.beq] at h
+    | .list xs, b, h => by
+      cases b with
+      | list ys => simp only [PyObj.beq] at h; rw [PyObj.beqList_sound xs ys h]
+      | _ => simp [PyObj.beq] at h
+    | .record xs, b, h => by
+      cases b with
+      | record ys => simp only [PyObj.beq] at h; rw [PyObj.beqFields_sound xs ys h]
+      | _ => simp [PyObj.beq] at h
+    | .dict xs, b, h => by
+      cases b with
+      | dict ys => simp only [PyObj.beq] at h; rw [PyObj.beqItems_sound xs ys h]
+      | _ => simp [PyObj.beq] at h
+  theorem PyObj.beqList_sound : (a b : List PyObj) → PyObj.beqList a b = true → a = b
+    | [], [], _ => rfl
+    | [], _ :: _, h => by simp [PyObj.beqList] at h
+    | _ :: _, [], h => by simp [PyObj.beqList] at h
+    | x :: xs, y :: ys, h => by
+      simp only [PyObj.beqList, Bool.and_eq_true] at h
+      rw [PyObj.beq_sound x y h.1, PyObj.beqList_sound xs ys h.2]
+  theorem PyObj.beqFields_sound : (a b : List (String × PyObj)) → PyObj.beqFields a b = true → a = b
+    | [], [], _ => rfl
+    | [], _ :: _, h => by simp [PyObj.beqFields] at h
+    | _ :: _, [], h => by simp [PyObj.beqFields] at h
+    | (k, x) :: xs, (k', y) :: ys, h => by
+      simp only [PyObj.beqFields, Bool.and_eq_true, beq_iff_eq] at h
+      rw [h.1.1, PyObj.beq_sound x y h.1.2, PyObj.beqFields_sound xs ys h.2]
+  theorem PyObj.beqItems_sound : (a b : List (PyObj × PyObj)) → PyObj.beqItems a b = true → a = b
+    | [], [], _ => rfl
+    | [], _ :: _, h => by simp [PyObj.beqItems] at h
+    | _ :: _, [], h => by simp [PyObj.beqItems] at h
+    | (k, x) :: xs, (k', y) :: ys, h => by
+      simp only [PyObj.beqItems, Bool.and_eq_true] at h
+      rw [PyObj.beq_sound k k' h.1.1, PyObj.beq_sound x y h.1.2, PyObj.beqItems_sound xs ys h.2]
+end
+
+theorem pyMem_false {x : PyObj} {ys : List PyObj} (h : x ∉ ys) : pyMem x ys = false := by
+  induction ys with
+  | nil => rfl
+  | cons y ys ih =>
+    simp only [List.mem_cons, not_or] at h
+    simp only [pyMem, Bool.or_eq_false_iff]
+    refine ⟨?_, ih h.2⟩
+    cases hb : PyObj.beq y x with
+    | false => rfl
+    | true => exact absurd (PyObj.beq_sound y x hb).symm h.1
+
+theorem pyDistinct_of_nodup {ys : List PyObj} (h : ys.Nodup) : pyDistinct ys = true := by
+  induction ys with
+  | nil => rfl
+  | cons y ys ih =>
+    simp only [List.nodup_cons] at h
+    simp [pyDistinct, pyMem_false h.1, ih h.2]
+
+theorem pySet_of_not_mem {xs : List (PyObj × PyObj)} {k v : PyObj} (h : k ∉ xs.map (·.1)) :
+    pySet xs k v = xs ++ [(k, v)] := by
+  induction xs with
+  | nil => rfl
+  | cons e rest ih =>
+    obtain ⟨k', v'⟩ := e
+    simp only [List.map_cons, List.mem_cons, not_or] at h
+    simp only [pySet]
+    have : PyObj.beq k' k = false := by
+      cases hb : PyObj.beq k' k with
+      | false => rfl
+      | true => exact absurd (PyObj.beq_sound k' k hb).symm h.1
+    simp [this, ih h.2]
+
+theorem dictOf_nodup (c : Cfg) (items acc : List (PyObj × PyObj))
+    (hh : ∀ e ∈ items, e.1.hashable c = true) (hn : ((acc ++ items).map (·.1)).Nodup) :
+    dictOf c items acc = .ok (acc ++ items) := by
+  induction items generalizing acc with
+  | nil => simp [dictOf]
+  | cons e rest ih =>
+    obtain ⟨k, v⟩ := e
+    have hk := hh (k, v) List.mem_cons_self
+    simp only at hk
+    simp only [dictOf, hk, if_true]
+    have hnot : k ∉ acc.map (·.1) := by
+      simp only [List.map_append, List.map_cons] at hn
+      have := (List.nodup_append.mp hn).2.2
+      intro hm
+      exact this _ hm _ List.mem_cons_self rfl
+    rw [pySet_of_not_mem hnot]
+    have e1 : acc ++ (k, v) :: rest = (acc ++ [(k, v)]) ++ rest := by simp
+    rw [e1]
+    apply ih _ (fun e he => hh e (List.mem_cons_of_mem _ he))
+    rw [← e1]; exact hn
+
+theorem mem_mapE {α β : Type} (f : α → Except Err β) (xs : List α) (ys : List β) (hf : mapE f xs = .ok ys)
+    {y : β} (hy : y ∈ ys) : ∃ x ∈ xs, f x = .ok y := by
+  induction xs generalizing ys with
+  | nil => simp [mapE] at hf; subst hf; simp at hy
+  | cons x1 xs1 ih1 =>
+    simp only [mapE, bind, Except.bind] at hf
+    split at hf
+    · cases hf
+    · rename_i y1 hy1
+      split at hf
+      · cases hf
+      · rename_i ys1 hys1
+        simp only [Except.ok.injEq] at hf; subst hf
+        rcases List.mem_cons.mp hy with rfl | hm
+        · exact ⟨x1, List.mem_cons_self, hy1⟩
+        · obtain ⟨x', hx', hfx'⟩ := ih1 ys1 hys1 hm
+          exact ⟨x', List.mem_cons_of_mem _ hx', hfx'⟩
+
+/-- images of pairwise different values under an invertible conversion are pairwise different -/
+theorem nodup_of_roundtrip {α β : Type} (f : α → Except Err β) (g : β → Except Err α) (xs : List α) (ys : List β)
+    (hx : xs.Pairwise (· ≠ ·)) (hf : mapE f xs = .ok ys) (hg : ∀ x ∈ xs, ∀ y, f x = .ok y → g y = .ok x) :
+    ys.Nodup := by
+  induction xs generalizing ys with
+  | nil => simp [mapE] at hf; subst hf; simp
+  | cons x xs ih =>
+    simp only [mapE, bind, Except.bind] at hf
+    split at hf
+    · cases hf
+    · rename_i y hy
+      split at hf
+      · cases hf
+      · rename_i ys' hys
+        simp only [Except.ok.injEq] at hf; subst hf
+        simp only [List.pairwise_cons] at hx
+        rw [List.nodup_cons]
+        refine ⟨?_, ih ys' hx.2 hys (fun x' hx' => hg x' (List.mem_cons_of_mem _ hx'))⟩
+        intro hmem
+        obtain ⟨x', hx', hfx'⟩ := mem_mapE f xs ys' hys hmem
+        have h1 := hg x List.mem_cons_self y hy
+        have h2 := hg x' (List.mem_cons_of_mem _ hx') y hfx'
+        rw [h1] at h2
+        cases h2
+        exact hx.1 x hx' rfl
+
+open Spec.PyConv
+
+/-! ### the descent over a pair node -/
+
+/-- what `pick` does in terms of the keys below the branch -/
+def pickRel (cf : List (Path × PyObj)) (leaf : PyObj → Except Err Val) (nested : List (Path × PyObj) → Except Err Val) :
+    Except Err Val :=
+  match dget cf [] with
+  | some py => leaf py
+  | none => nested cf
+
+theorem pick_false (ls rs : List (Path × PyObj)) (leaf) (nested) :
+    pick (ls.map (pre false) ++ rs.map (pre true)) false leaf nested = pickRel ls leaf nested := by
+  unfold pick pickRel
+  rw [dget_append, dget_map_pre, dget_map_pre_ne rs (b := true) (b' := false) (by decide) [], strip_append, strip_map_pre,
+    strip_map_pre_ne (b := true) (b' := false) (by decide) rs]
+  cases dget ls [] <;> simp
+
+theorem pick_true (ls rs : List (Path × PyObj)) (leaf) (nested) :
+    pick (ls.map (pre false) ++ rs.map (pre true)) true leaf nested = pickRel rs leaf nested := by
+  unfold pick pickRel
+  rw [dget_append, dget_map_pre_ne ls (b := false) (b' := true) (by decide) [], dget_map_pre, strip_append, strip_map_pre,
+    strip_map_pre_ne (b := false) (b' := true) (by decide) ls]
+  cases dget rs [] <;> simp
+
+theorem hashableList_of_all (c : Cfg) (xs : List PyObj) (h : ∀ x ∈ xs, x.hashable c = true) :
+    PyObj.hashableList c xs = true := by
+  induction xs with
+  | nil => rfl
+  | cons x xs ih =>
+    simp only [PyObj.hashableList, Bool.and_eq_true]
+    exact ⟨h x List.mem_cons_self, ih (fun y hy => h y (List.mem_cons_of_mem _ hy))⟩
+
+/-- the statement proved by induction over the type, for all three mutually recursive conversions -/
+def P (c : Cfg) (τ : Ty) : Prop :=
+  ∀ cmp v, inv c cmp τ = true → HasTy c τ v →
+    ∃ py, toPy c cmp τ v = .ok py ∧ ofPy c τ py = .ok v ∧ (cmp = true → py.hashable c = true)
+      ∧ (τ.isOption = false → py ≠ .none)
+
+def Pflat (c : Cfg) (τ : Ty) : Prop :=
+  ∀ cmp v, leavesInv c cmp τ = true → HasTy c τ v →
+    ∃ flat, flatVals c cmp τ v = .ok flat ∧ nestedPair c τ flat = .ok v ∧ flat ≠ [] ∧ (∀ e ∈ flat, e.1 ≠ [])
+      ∧ flat.map (·.1) = (pairArgs τ).map (·.1) ∧ (cmp = true → ∀ e ∈ flat, e.2.hashable c = true)
+
+def Por (c : Cfg) (τ : Ty) : Prop :=
+  ∀ cmp v, orLeavesInv c cmp τ = true → HasTy c τ v →
+    ∃ path py, orVal c cmp τ v = .ok (path, py) ∧ path ∈ (orArgs τ).map (·.1) ∧ orNested c τ path py = .ok v
+      ∧ (cmp = true → py.hashable c = true) ∧ (allUnits τ = true → orNested c τ path .unit = .ok v)
+
+/-- one argument of a pair node -/
+theorem pair_child (c : Cfg) (t : Ty) (hP : P c t) (hF : Pflat c t) (cmp : Bool) (x : Val)
+    (hinv : (if t.isFlatPair then leavesInv c cmp t else inv c cmp t) = true) (hty : HasTy c t x) :
+    ∃ cf, (if t.isFlatPair then flatVals c cmp t x else single (toPy c cmp t x)) = .ok cf
+      ∧ pickRel cf (ofPy c t) (nestedPair c t) = .ok x ∧ cf ≠ []
+      ∧ cf.map (·.1) = (if t.isFlatPair then pairArgs t else [([], t)]).map (·.1)
+      ∧ (cmp = true → ∀ e ∈ cf, e.2.hashable c = true) := by
+  by_cases hf : t.isFlatPair = true
+  · simp only [hf, if_true] at hinv ⊢
+    obtain ⟨flat, h1, h2, h3, h4, h5, h6⟩ := hF cmp x hinv hty
+    refine ⟨flat, h1, ?_, h3, h5, h6⟩
+    unfold pickRel
+    rw [dget_nil_of_nonempty flat h4]
+    exact h2
+  · simp only [hf, Bool.false_eq_true, if_false] at hinv ⊢
+    obtain ⟨py, h1, h2, h3, _⟩ := hP cmp x hinv hty
+    refine ⟨[([], py)], by simp [single, h1, Except.map], ?_, by simp, by simp, ?_⟩
+    · simp [pickRel, dget, h2]
+    · intro hc e he
+      simp only [List.mem_singleton] at he
+      subst he
+      exact h3 hc
+
+/-- the flattening and the descent of a pair node (whatever its own annotations are) -/
+theorem pair_node (c : Cfg) (a : Ann) (l r : Ty) (hPl : P c l) (hFl : Pflat c l) (hPr : P c r) (hFr : Pflat c r) :
+    Pflat c (.pair a l r) := by
+  intro cmp v hinv hty
+  obtain ⟨x, y, rfl, hx, hy⟩ := hty
+  simp only [leavesInv, Bool.and_eq_true] at hinv
+  obtain ⟨ls, l1, l2, l3, l4, l5⟩ := pair_child c l hPl hFl cmp x hinv.1 hx
+  obtain ⟨rs, r1, r2, r3, r4, r5⟩ := pair_child c r hPr hFr cmp y hinv.2 hy
+  refine ⟨ls.map (pre false) ++ rs.map (pre true), ?_, ?_, ?_, ?_, ?_, ?_⟩
+  · cases hl : l.isFlatPair <;> cases hr : r.isFlatPair <;>
+      simp only [hl, hr, Bool.false_eq_true, if_true, if_false] at l1 r1 <;>
+      simp [flatVals, hl, hr, l1, r1, bind, Except.bind]
+  · have hne : (ls.map (pre false) ++ rs.map (pre true)).isEmpty = false := by
+      cases ls with
+      | nil => exact absurd rfl l3
+      | cons e es => rfl
+    simp only [nestedPair, hne, Bool.false_eq_true, if_false, pick_false, pick_true, l2, r2, bind, Except.bind]
+  · cases ls with
+    | nil => exact absurd rfl l3
+    | cons e es => simp
+  · intro e he
+    rcases List.mem_append.mp he with h | h <;>
+    · obtain ⟨e', _, rfl⟩ := List.mem_map.mp h
+      simp [pre]
+  · simp only [pairArgs, List.map_append, map_pre_fst, l4, r4]
+  · intro hc e he
+    rcases List.mem_append.mp he with h | h
+    · obtain ⟨e', he', rfl⟩ := List.mem_map.mp h
+      exact l5 hc e' he'
+    · obtain ⟨e', he', rfl⟩ := List.mem_map.mp h
+      exact r5 hc e' he'
+
+/-! ### the descent over a union node -/
+
+theorem or_child (c : Cfg) (t : Ty) (hP : P c t) (hO : Por c t) (cmp : Bool) (x : Val)
+    (hinv : (if t.isOr then orLeavesInv c cmp t else inv c cmp t) = true) (hty : HasTy c t x) :
+    ∃ path py, (if t.isOr then orVal c cmp t x else (toPy c cmp t x).map fun py => (([] : Path), py)) = .ok (path, py)
+      ∧ path ∈ (if t.isOr then orArgs t else [([], t)]).map (·.1)
+      ∧ (if path.isEmpty then ofPy c t py else orNested c t path py) = .ok x
+      ∧ (cmp = true → py.hashable c = true)
+      ∧ (allUnits t = true → (if path.isEmpty then ofPy c t .unit else orNested c t path .unit) = .ok x) := by
+  by_cases ho : t.isOr = true
+  · simp only [ho, if_true] at hinv ⊢
+    obtain ⟨path, py, h1, h2, h3, h4, h5⟩ := hO cmp x hinv hty
+    have hne : path ≠ [] := by
+      obtain ⟨e, he, rfl⟩ := List.mem_map.mp h2
+      exact (orArgs_paths t).2 e he
+    have hemp : path.isEmpty = false := by cases path <;> simp_all
+    exact ⟨path, py, h1, h2, by simpa [hemp] using h3, h4, fun hu => by simpa [hemp] using h5 hu⟩
+  · simp only [ho, Bool.false_eq_true, if_false] at hinv ⊢
+    obtain ⟨py, h1, h2, h3, _⟩ := hP cmp x hinv hty
+    refine ⟨[], py, by simp [h1, Except.map], by simp, by simpa using h2, h3, ?_⟩
+    intro hu
+    -- a leaf of an enum is the unit type
+    cases t with
+    | scalar a s =>
+      cases s <;> simp [allUnits] at hu
+      simp only [HasTy] at hty
+      subst hty
+      simp [ofPy, scalarOfPy]
+    | or _ _ _ => simp [Ty.isOr] at ho
+    | _ => simp [allUnits] at hu
+
+theorem or_node (c : Cfg) (a : Ann) (l r : Ty) (hPl : P c l) (hOl : Por c l) (hPr : P c r) (hOr : Por c r) :
+    Por c (.or a l r) := by
+  intro cmp v hinv hty
+  simp only [orLeavesInv, Bool.and_eq_true] at hinv
+  rcases hty with ⟨x, rfl, hx⟩ | ⟨y, rfl, hy⟩
+  · obtain ⟨path, py, h1, h2, h3, h4, h5⟩ := or_child c l hPl hOl cmp x hinv.1 hx
+    refine ⟨false :: path, py, ?_, ?_, ?_, h4, ?_⟩
+    · rw [orVal, h1]; rfl
+    · simp only [orArgs, List.map_append, map_pre_fst, List.mem_append, List.mem_map]
+      exact Or.inl ⟨path, by simpa using h2, rfl⟩
+    · simp only [orNested, h3, Except.map]
+    · intro hu
+      simp only [allUnits, Bool.and_eq_true] at hu
+      simp only [orNested, h5 hu.1, Except.map]
+  · obtain ⟨path, py, h1, h2, h3, h4, h5⟩ := or_child c r hPr hOr cmp y hinv.2 hy
+    refine ⟨true :: path, py, ?_, ?_, ?_, h4, ?_⟩
+    · rw [orVal, h1]; rfl
+    · simp only [orArgs, List.map_append, map_pre_fst, List.mem_append, List.mem_map]
+      exact Or.inr ⟨path, by simpa using h2, rfl⟩
+    · simp only [orNested, h3, Except.map]
+    · intro hu
+      simp only [allUnits, Bool.and_eq_true] at hu
+      simp only [orNested, h5 hu.2, Except.map]
+
+/-! ### the cases of the main induction -/
+
+theorem P_scalar (c : Cfg) (hu : c.unitHashable = true) (a : Ann) (s : Scalar) : P c (.scalar a s) := by
+  intro cmp v _ hty
+  cases s <;> simp only [HasTy] at hty
+  · subst hty
+    exact ⟨.unit, by simp [toPy, scalarToPy], by simp [ofPy, scalarOfPy], fun _ => by simp [PyObj.hashable, hu], fun _ => by simp⟩
+  · obtain ⟨b, rfl⟩ := hty
+    exact ⟨.bool b, by simp [toPy, scalarToPy], by simp [ofPy, scalarOfPy], fun _ => by simp [PyObj.hashable], fun _ => by simp⟩
+  · obtain ⟨n, rfl, hn⟩ := hty
+    exact ⟨.int n, by simp [toPy, scalarToPy], by simp [ofPy, scalarOfPy, hn], fun _ => by simp [PyObj.hashable], fun _ => by simp⟩
+  · obtain ⟨n, rfl⟩ := hty
+    exact ⟨.int n, by simp [toPy, scalarToPy], by simp [ofPy, scalarOfPy], fun _ => by simp [PyObj.hashable], fun _ => by simp⟩
+  · obtain ⟨n, rfl, h0, h1⟩ := hty
+    refine ⟨.int n, by simp [toPy, scalarToPy], ?_, fun _ => by simp [PyObj.hashable], fun _ => by simp⟩
+    simp only [ofPy, scalarOfPy]
+    rw [if_neg (by omega), if_neg (by omega)]
+  · obtain ⟨n, rfl⟩ := hty
+    exact ⟨.int n, by simp [toPy, scalarToPy], by simp [ofPy, scalarOfPy], fun _ => by simp [PyObj.hashable], fun _ => by simp⟩
+  · obtain ⟨s, rfl, hs⟩ := hty
+    exact ⟨.str s, by simp [toPy, scalarToPy], by simp [ofPy, scalarOfPy, hs], fun _ => by simp [PyObj.hashable], fun _ => by simp⟩
+  · obtain ⟨b, rfl⟩ := hty
+    exact ⟨.bytes b, by simp [toPy, scalarToPy], by simp [ofPy, scalarOfPy], fun _ => by simp [PyObj.hashable], fun _ => by simp⟩
+
+theorem P_option (c : Cfg) (a : Ann) (t : Ty) (hP : P c t) : P c (.option a t) := by
+  intro cmp v hinv hty
+  simp only [inv, Bool.and_eq_true, Bool.not_eq_true'] at hinv
+  rcases hty with rfl | ⟨x, rfl, hx⟩
+  · exact ⟨.none, by simp [toPy], by simp [ofPy], fun _ => by simp [PyObj.hashable], fun h => by simp [Ty.isOption] at h⟩
+  · obtain ⟨py, h1, h2, h3, h4⟩ := hP cmp x hinv.2 hx
+    refine ⟨py, by simpa [toPy] using h1, ?_, h3, fun h => by simp [Ty.isOption] at h⟩
+    have hne := h4 hinv.1
+    cases py <;> simp_all [ofPy, Except.map]
+
+theorem P_list (c : Cfg) (a : Ann) (t : Ty) (hP : P c t) : P c (.list a t) := by
+  intro cmp v hinv hty
+  simp only [inv, Bool.and_eq_true, Bool.not_eq_true'] at hinv
+  obtain ⟨xs, rfl, hxs⟩ := hty
+  obtain ⟨hc, hi⟩ := hinv
+  subst hc
+  obtain ⟨pys, h1, h2, _, _⟩ := mapE_roundtrip (toPy c false t) (ofPy c t) xs
+    (fun x hx => by
+      obtain ⟨py, p1, p2, _, _⟩ := hP false x hi (hxs x hx)
+      exact ⟨py, p1, p2⟩)
+  exact ⟨.list pys, by simp [toPy, h1, Except.map], by simp [ofPy, h2, Except.map], (fun h => by cases h), fun _ => by simp⟩
+
+/-- `to_python_object` is a function: the object of `x` is the one the induction hypothesis speaks about -/
+theorem P_back (c : Cfg) (t : Ty) (hP : P c t) (cmp : Bool) (hi : inv c cmp t = true) (x : Val) (hx : HasTy c t x)
+    (y : PyObj) (hy : toPy c cmp t x = .ok y) : ofPy c t y = .ok x ∧ (cmp = true → y.hashable c = true) := by
+  obtain ⟨py, p1, p2, p3, _⟩ := hP cmp x hi hx
+  rw [p1] at hy; cases hy
+  exact ⟨p2, p3⟩
+
+theorem P_set (c : Cfg) (a : Ann) (t : Ty) (hP : P c t) : P c (.set a t) := by
+  intro cmp v hinv hty
+  simp only [inv, Bool.and_eq_true, Bool.not_eq_true'] at hinv
+  obtain ⟨xs, rfl, hxs, hdist, hsort⟩ := hty
+  obtain ⟨⟨⟨hc, hi⟩, _⟩, _⟩ := hinv
+  subst hc
+  obtain ⟨pys, h1, h2, _, h4⟩ := mapE_roundtrip (toPy c true t) (ofPy c t) xs
+    (fun x hx => by
+      obtain ⟨py, p1, p2, _, _⟩ := hP true x hi (hxs x hx)
+      exact ⟨py, p1, p2⟩)
+  have hhash : pys.all (PyObj.hashable c) = true := by
+    rw [List.all_eq_true]
+    intro y hy
+    obtain ⟨x, hx, hf, _⟩ := h4 y hy
+    exact (P_back c t hP true hi x (hxs x hx) y hf).2 rfl
+  have hnd : pys.Nodup := nodup_of_roundtrip (toPy c true t) (ofPy c t) xs pys hdist h1
+    (fun x hx y hy => (P_back c t hP true hi x (hxs x hx) y hy).1)
+  refine ⟨.list pys, by simp [toPy, h1, Except.map], ?_, (fun h => by cases h), fun _ => by simp⟩
+  simp [ofPy, hhash, pyDistinct_of_nodup hnd, h2, Except.map, hsort]
+
+theorem nodup_keys {α β κ κ' : Type} (f : α → Except Err β) (pa : α → κ) (pb : β → κ') (gk : κ' → Except Err κ)
+    (xs : List α) (ys : List β) (hx : (xs.map pa).Pairwise (· ≠ ·)) (hf : mapE f xs = .ok ys)
+    (hg : ∀ x ∈ xs, ∀ y, f x = .ok y → gk (pb y) = .ok (pa x)) : (ys.map pb).Nodup := by
+  induction xs generalizing ys with
+  | nil => simp [mapE] at hf; subst hf; simp
+  | cons x xs ih =>
+    simp only [mapE, bind, Except.bind] at hf
+    split at hf
+    · cases hf
+    · rename_i y hy
+      split at hf
+      · cases hf
+      · rename_i ys' hys
+        simp only [Except.ok.injEq] at hf; subst hf
+        simp only [List.map_cons, List.pairwise_cons] at hx
+        rw [List.map_cons, List.nodup_cons]
+        refine ⟨?_, ih ys' hx.2 hys (fun x' hx' => hg x' (List.mem_cons_of_mem _ hx'))⟩
+        intro hmem
+        obtain ⟨y', hy', heq⟩ := List.mem_map.mp hmem
+        obtain ⟨x', hx', hfx'⟩ := mem_mapE f xs ys' hys hy'
+        have h1 := hg x List.mem_cons_self y hy
+        have h2 := hg x' (List.mem_cons_of_mem _ hx') y' hfx'
+        rw [heq, h1] at h2
+        have hpa := Except.ok.inj h2
+        exact hx.1 (pa x') (List.mem_map.mpr ⟨x', hx', rfl⟩) hpa
+
+/-- the entries of a map / big_map literal -/
+theorem items_roundtrip (c : Cfg) (k t : Ty) (hPk : P c k) (hPt : P c t) (hik : inv c true k = true)
+    (hit : inv c false t = true) (kvs : List (Val × Val)) (hty : ∀ e ∈ kvs, HasTy c k e.1 ∧ HasTy c t e.2)
+    (hd : (kvs.map (·.1)).Pairwise (· ≠ ·)) :
+    ∃ items,
+      mapE (fun (e : Val × Val) => do
+        let pk ← toPy c true k e.1
+        let pv ← toPy c false t e.2
+        pure (pk, pv)) kvs = .ok items
+      ∧ dictOf c items [] = .ok items
+      ∧ mapE (fun (e : PyObj × PyObj) => do
+        let kk ← ofPy c k e.1
+        let vv ← ofPy c t e.2
+        pure (kk, vv)) items = .ok kvs := by
+  have helem : ∀ e ∈ kvs, ∀ y,
+      (do let pk ← toPy c true k e.1
+          let pv ← toPy c false t e.2
+          pure (pk, pv) : Except Err (PyObj × PyObj)) = .ok y →
+      ofPy c k y.1 = .ok e.1 ∧ ofPy c t y.2 = .ok e.2 ∧ y.1.hashable c = true := by
+    intro e he y hy
+    obtain ⟨pk, p1, p2, p3, _⟩ := hPk true e.1 hik (hty e he).1
+    obtain ⟨pv, q1, q2, _, _⟩ := hPt false e.2 hit (hty e he).2
+    simp only [p1, q1, bind, Except.bind, pure, Except.pure, Except.ok.injEq] at hy
+    subst hy
+    exact ⟨p2, q2, p3 rfl⟩
+  obtain ⟨items, h1, h2, _, h4⟩ := mapE_roundtrip
+    (fun (e : Val × Val) => do
+      let pk ← toPy c true k e.1
+      let pv ← toPy c false t e.2
+      pure (pk, pv))
+    (fun (e : PyObj × PyObj) => do
+      let kk ← ofPy c k e.1
+      let vv ← ofPy c t e.2
+      pure (kk, vv)) kvs
+    (fun e he => by
+      obtain ⟨pk, p1, p2, _, _⟩ := hPk true e.1 hik (hty e he).1
+      obtain ⟨pv, q1, q2, _, _⟩ := hPt false e.2 hit (hty e he).2
+      exact ⟨(pk, pv), by simp [p1, q1, bind, Except.bind, pure, Except.pure],
+        by simp [p2, q2, bind, Except.bind, pure, Except.pure]⟩)
+  refine ⟨items, h1, ?_, h2⟩
+  have := dictOf_nodup c items []
+    (fun y hy => by
+      obtain ⟨e, he, hf, _⟩ := h4 y hy
+      exact (helem e he y hf).2.2)
+    (by
+      rw [List.nil_append]
+      exact nodup_keys _ (·.1) (·.1) (ofPy c k) kvs items hd h1 (fun e he y hy => (helem e he y hy).1))
+  simpa using this
+
+theorem P_map (c : Cfg) (a : Ann) (k t : Ty) (hPk : P c k) (hPt : P c t) : P c (.map a k t) := by
+  intro cmp v hinv hty
+  simp only [inv, Bool.and_eq_true, Bool.not_eq_true'] at hinv
+  obtain ⟨kvs, rfl, hkv, hd, hsort⟩ := hty
+  obtain ⟨⟨⟨hc, hik⟩, _⟩, hit⟩ := hinv
+  subst hc
+  obtain ⟨items, h1, h2, h3⟩ := items_roundtrip c k t hPk hPt hik hit kvs hkv hd
+  refine ⟨.dict items, ?_, ?_, (fun h => by cases h), fun _ => by simp⟩
+  · simp only [toPy, Bool.false_eq_true, if_false, h1]
+    simp only [bind, Except.bind, h2, Except.map]
+  · simp only [ofPy, h3]
+    simp only [Except.map, hsort]
+
+theorem P_bigMap (c : Cfg) (a : Ann) (k t : Ty) (hPk : P c k) (hPt : P c t) : P c (.bigMap a k t) := by
+  intro cmp v hinv hty
+  simp only [inv, Bool.and_eq_true, Bool.not_eq_true'] at hinv
+  obtain ⟨⟨⟨hc, hik⟩, _⟩, hit⟩ := hinv
+  subst hc
+  rcases hty with ⟨n, rfl⟩ | ⟨kvs, rfl, hkv, hd, hsort⟩
+  · exact ⟨.int n, by simp [toPy], by simp [ofPy], (fun h => by cases h), fun _ => by simp⟩
+  · obtain ⟨items, h1, h2, h3⟩ := items_roundtrip c k t hPk hPt hik hit kvs hkv hd
+    refine ⟨.dict items, ?_, ?_, (fun h => by cases h), fun _ => by simp⟩
+    · simp only [toPy, Bool.false_eq_true, if_false, h1]
+      simp only [bind, Except.bind, h2, Except.map]
+    · simp only [ofPy, h3]
+      simp only [Except.map, hsort]
+
+theorem toPy_pair_eq (c : Cfg) (cmp : Bool) (a : Ann) (l r : Ty) (x y : Val) :
+    toPy c cmp (.pair a l r) (.pair x y) =
+      (flatVals c cmp (.pair a l r) (.pair x y)).bind fun flat =>
+        match (if cmp then none else (pairLayout (.pair a l r)).pathToKey) with
+        | some p2k => (recordOf p2k flat []).map .record
+        | none => .ok (.tuple (flat.map (·.2))) := by
+  rw [toPy, flatVals]
+  cases hl : l.isFlatPair <;> cases hr : r.isFlatPair <;> simp only [Bool.false_eq_true, if_true, if_false]
+  · cases single (toPy c cmp l x) <;> first | rfl | (cases single (toPy c cmp r y) <;> rfl)
+  · cases single (toPy c cmp l x) <;> first | rfl | (cases flatVals c cmp r y <;> rfl)
+  · cases flatVals c cmp l x <;> first | rfl | (cases single (toPy c cmp r y) <;> rfl)
+  · cases flatVals c cmp l x <;> first | rfl | (cases flatVals c cmp r y <;> rfl)
+
+theorem ofPy_pair_eq (c : Cfg) (a : Ann) (l r : Ty) (py : PyObj) :
+    ofPy c (.pair a l r) py =
+      (match py with
+        | .tuple xs | .list xs => objOfTuple (pairLayout (.pair a l r)).idxToPath xs
+        | .record kvs =>
+          match (pairLayout (.pair a l r)).keyToPath with
+          | some k2p => objOfRecord k2p kvs []
+          | none => .error .assertion
+        | .dict items =>
+          match (pairLayout (.pair a l r)).keyToPath, asRecord items with
+          | some k2p, some kvs => objOfRecord k2p kvs []
+          | some _, none => .error .key
+          | none, _ => .error .assertion
+        | _ => .error .assertion).bind (nestedPair c (.pair a l r)) := by
+  cases py with
+  | record kvs =>
+    simp only [ofPy, nestedPair, bind, Except.bind]
+    cases (pairLayout (Ty.pair a l r)).keyToPath <;> rfl
+  | dict items =>
+    simp only [ofPy, nestedPair, bind, Except.bind]
+    cases (pairLayout (Ty.pair a l r)).keyToPath <;> cases asRecord items <;> rfl
+  | _ => simp only [ofPy, nestedPair, bind, Except.bind]
+
+theorem P_pair (c : Cfg) (a : Ann) (l r : Ty) (hF : Pflat c (.pair a l r)) : P c (.pair a l r) := by
+  intro cmp v hinv hty
+  have hty' := hty
+  obtain ⟨x, y, rfl, hx, hy⟩ := hty
+  simp only [inv, Bool.and_eq_true] at hinv
+  obtain ⟨flat, f1, f2, f3, f4, f5, f6⟩ := hF cmp (.pair x y) (by simp [leavesInv, hinv.1.2, hinv.2]) hty'
+  rw [toPy_pair_eq, f1]
+  simp only [Except.bind]
+  have hidx : (pairLayout (.pair a l r)).idxToPath = flat.map (·.1) := by
+    rw [pairLayout, getTypeLayout_idx, f5]
+  cases hm : (if cmp = true then none else (pairLayout (.pair a l r)).pathToKey) with
+  | none =>
+    refine ⟨.tuple (flat.map (·.2)), rfl, ?_, fun _ => ?_, fun _ => by simp⟩
+    · rw [ofPy_pair_eq]
+      simp only [hidx, objOfTuple_zip, Except.bind]
+      exact f2
+    · simp only [PyObj.hashable]
+      apply hashableList_of_all
+      intro p hp
+      obtain ⟨e, he, rfl⟩ := List.mem_map.mp hp
+      exact f6 ‹_› e he
+  | some p2k =>
+    have hcmp : cmp = false := by
+      cases cmp with
+      | false => rfl
+      | true => simp at hm
+    subst hcmp
+    simp only [Bool.false_eq_true, if_false] at hm
+    have hnames : (p2k.map (·.2)).Nodup := by
+      have := hinv.1.1
+      simp only [Bool.false_or, namesNodup, hm, decide_eq_true_eq] at this
+      exact this
+    have hpaths : p2k.map (·.1) = flat.map (·.1) := by
+      rw [getTypeLayout_p2k_paths _ _ _ hm, f5]
+    obtain ⟨T, hT1, hT2⟩ := exists_tri p2k flat hpaths
+    have hTp : (T.map (·.1)).Nodup := by
+      have := (pairArgs_paths (.pair a l r)).1
+      rw [← f5, hT2, List.map_map] at this
+      exact this
+    have hTk : (T.map (·.2.1)).Nodup := by
+      rw [hT1, List.map_map] at hnames
+      exact hnames
+    have hrec := recordOf_tri T hTp hTk [] T rfl
+    simp only [List.map_nil] at hrec
+    refine ⟨.record (T.map fun t => (t.2.1, t.2.2)), ?_, ?_, (fun h => by cases h), fun _ => by simp⟩
+    · show (recordOf p2k flat []).map PyObj.record = _
+      rw [hT1, hT2, hrec]; rfl
+    · rw [ofPy_pair_eq]
+      have hk2p : (pairLayout (.pair a l r)).keyToPath = some (T.map fun t => (t.2.1, t.1)) := by
+        rw [pairLayout, getTypeLayout_k2p _ _ _ hm, hT1]
+        congr 1
+        have := foldl_dset_nodup (fun (e : Path × String) => (e.2, e.1)) (T.map fun t => (t.1, t.2.1)) []
+          (by rw [List.nil_append, List.map_map, List.map_map]; exact hTk)
+        rw [List.nil_append, List.map_map] at this
+        exact this
+      have hobj := objOfRecord_tri T hTp hTk [] T rfl
+      simp only [List.map_nil] at hobj
+      simp only [hk2p, hobj, Except.bind, ← hT2]
+      exact f2
+
+theorem getTypeLayout_infer (flat : List (Path × Ty)) :
+    (getTypeLayout flat true).pathToKey = some (layoutGo flat 0 [] []).2 := by
+  unfold getTypeLayout
+  split
+  rename_i reserved p2k heq
+  simp [heq]
+
+theorem toPy_or_eq (c : Cfg) (cmp : Bool) (a : Ann) (l r : Ty) (v : Val) :
+    toPy c cmp (.or a l r) v =
+      (orVal c cmp (.or a l r) v).bind fun pp =>
+        match (orLayout (.or a l r)).pathToKey with
+        | none => .error .assertion
+        | some p2k =>
+          match dget p2k pp.1 with
+          | none => .error .key
+          | some entrypoint =>
+            if (Ty.or a l r).isEnum then .ok (.str entrypoint)
+            else if cmp then .ok (.tuple [.str entrypoint, pp.2]) else .ok (.record [(entrypoint, pp.2)]) := by
+  cases v with
+  | left x =>
+    rw [toPy, orVal]
+    simp only [bind, Except.bind]
+    cases hA : (Except.map (pre false) (if l.isOr = true then orVal c cmp l x else Except.map (fun py => ([], py)) (toPy c cmp l x))) with
+    | error e => rfl
+    | ok pp => obtain ⟨path, py⟩ := pp; rfl
+  | right y =>
+    rw [toPy, orVal]
+    simp only [bind, Except.bind]
+    cases hA : (Except.map (pre true) (if r.isOr = true then orVal c cmp r y else Except.map (fun py => ([], py)) (toPy c cmp r y))) with
+    | error e => rfl
+    | ok pp => obtain ⟨path, py⟩ := pp; rfl
+  | _ => simp [toPy, orVal, bind, Except.bind]
+
+theorem P_or (c : Cfg) (a : Ann) (l r : Ty) (hO : Por c (.or a l r)) : P c (.or a l r) := by
+  intro cmp v hinv hty
+  simp only [inv, Bool.and_eq_true] at hinv
+  obtain ⟨path, py, o1, o2, o3, o4, o5⟩ := hO cmp v (by simp [orLeavesInv, hinv.1.2, hinv.2]) hty
+  have hp2k := getTypeLayout_infer (orArgs (.or a l r))
+  generalize hg : (layoutGo (orArgs (.or a l r)) 0 [] []).2 = p2k at hp2k
+  have hpaths : p2k.map (·.1) = (orArgs (.or a l r)).map (·.1) := getTypeLayout_p2k_paths _ _ _ hp2k
+  have hnames : (p2k.map (·.2)).Nodup := by
+    have := hinv.1.1
+    simp only [namesNodup, orLayout, hp2k, decide_eq_true_eq] at this
+    exact this
+  have hpnd : (p2k.map (·.1)).Nodup := by rw [hpaths]; exact (orArgs_paths _).1
+  -- the name of the leaf the value lands on
+  obtain ⟨name, hname⟩ : ∃ name, (path, name) ∈ p2k := by
+    rw [← hpaths] at o2
+    obtain ⟨e, he, rfl⟩ := List.mem_map.mp o2
+    exact ⟨e.2, he⟩
+  have hget : dget p2k path = some name := dget_of_mem_nodup hpnd hname
+  have hk2p : (orLayout (.or a l r)).keyToPath = some (p2k.map fun e => (e.2, e.1)) := by
+    rw [orLayout, getTypeLayout_k2p _ _ _ hp2k]
+    congr 1
+    have := foldl_dset_nodup (fun (e : Path × String) => (e.2, e.1)) p2k []
+      (by rw [List.nil_append, List.map_map]; exact hnames)
+    rw [List.nil_append] at this
+    exact this
+  have hgetk : dget (p2k.map fun e => (e.2, e.1)) name = some path := by
+    apply dget_of_mem_nodup
+    · rw [List.map_map]; exact hnames
+    · exact List.mem_map.mpr ⟨(path, name), hname, rfl⟩
+  have hpne : path ≠ [] := by
+    obtain ⟨e, he, rfl⟩ := List.mem_map.mp o2
+    exact (orArgs_paths _).2 e he
+  rw [toPy_or_eq, o1]
+  simp only [Except.bind, orLayout, hp2k, hget]
+  by_cases he : (Ty.or a l r).isEnum = true
+  · refine ⟨.str name, by simp [he], ?_, fun _ => by simp [PyObj.hashable], fun _ => by simp⟩
+    have hu : allUnits (.or a l r) = true := by simpa [Ty.isEnum, allUnits] using he
+    simp only [ofPy, he, if_true, bind, Except.bind, hk2p, hgetk]
+    cases path with
+    | nil => exact absurd rfl hpne
+    | cons b rest =>
+      cases b
+      · have := o5 hu; simp only [orNested] at this; exact this
+      · have := o5 hu; simp only [orNested] at this; exact this
+  · simp only [he, Bool.false_eq_true, if_false]
+    cases cmp with
+    | true =>
+      refine ⟨.tuple [.str name, py], by simp, ?_, fun _ => ?_, fun _ => by simp⟩
+      · simp only [ofPy, bind, Except.bind, hk2p, hgetk]
+        cases path with
+        | nil => exact absurd rfl hpne
+        | cons b rest =>
+          cases b
+          · have := o3; simp only [orNested] at this; exact this
+          · have := o3; simp only [orNested] at this; exact this
+      · simp [PyObj.hashable, PyObj.hashableList, o4 rfl]
+    | false =>
+      refine ⟨.record [(name, py)], by simp, ?_, (fun h => by cases h), fun _ => by simp⟩
+      simp only [ofPy, bind, Except.bind, hk2p, hgetk]
+      cases path with
+      | nil => exact absurd rfl hpne
+      | cons b rest =>
+        cases b
+        · have := o3; simp only [orNested] at this; exact this
+        · have := o3; simp only [orNested] at this; exact this
+
+
+/-- all three statements, for every type, by induction over the type -/
+theorem roundtrip_all (c : Cfg) (hu : c.unitHashable = true) : ∀ τ : Ty, P c τ ∧ Pflat c τ ∧ Por c τ := by
+  intro τ
+  induction τ with
+  | scalar a s =>
+    exact ⟨P_scalar c hu a s, fun _ _ h => by simp [leavesInv] at h, fun _ _ h => by simp [orLeavesInv] at h⟩
+  | pair a l r ihl ihr =>
+    have hF := pair_node c a l r ihl.1 ihl.2.1 ihr.1 ihr.2.1
+    exact ⟨P_pair c a l r hF, hF, fun _ _ h => by simp [orLeavesInv] at h⟩
+  | or a l r ihl ihr =>
+    have hO := or_node c a l r ihl.1 ihl.2.2 ihr.1 ihr.2.2
+    exact ⟨P_or c a l r hO, fun _ _ h => by simp [leavesInv] at h, hO⟩
+  | option a t ih =>
+    exact ⟨P_option c a t ih.1, fun _ _ h => by simp [leavesInv] at h, fun _ _ h => by simp [orLeavesInv] at h⟩
+  | list a t ih =>
+    exact ⟨P_list c a t ih.1, fun _ _ h => by simp [leavesInv] at h, fun _ _ h => by simp [orLeavesInv] at h⟩
+  | set a t ih =>
+    exact ⟨P_set c a t ih.1, fun _ _ h => by simp [leavesInv] at h, fun _ _ h => by simp [orLeavesInv] at h⟩
+  | map a k v ihk ihv =>
+    exact ⟨P_map c a k v ihk.1 ihv.1, fun _ _ h => by simp [leavesInv] at h, fun _ _ h => by simp [orLeavesInv] at h⟩
+  | bigMap a k v ihk ihv =>
+    exact ⟨P_bigMap c a k v ihk.1 ihv.1, fun _ _ h => by simp [leavesInv] at h, fun _ _ h => by simp [orLeavesInv] at h⟩
+
+/-- the keys of the record a named pair converts to are the field names of its layout, in order -/
+theorem pair_record_keys (c : Cfg) (hu : c.unitHashable = true) (a : Ann) (l r : Ty) (v : Val)
+    (hinv : inv c false (.pair a l r) = true) (hty : HasTy c (.pair a l r) v)
+    (p2k : List (Path × String)) (hm : (pairLayout (.pair a l r)).pathToKey = some p2k) :
+    ∃ fields, toPy c false (.pair a l r) v = .ok (.record fields) ∧ fields.map (·.1) = p2k.map (·.2) := by
+  have hF := (roundtrip_all c hu (.pair a l r)).2.1
+  have hinv' := hinv
+  have hty' := hty
+  obtain ⟨x, y, rfl, hx, hy⟩ := hty
+  simp only [inv, Bool.and_eq_true] at hinv
+  obtain ⟨flat, f1, f2, f3, f4, f5, f6⟩ := hF false (.pair x y) (by simp [leavesInv, hinv.1.2, hinv.2]) hty'
+  rw [toPy_pair_eq, f1]
+  simp only [Except.bind, Bool.false_eq_true, if_false, hm]
+  have hnames : (p2k.map (·.2)).Nodup := by
+    have := hinv.1.1
+    simp only [Bool.false_or, namesNodup, hm, decide_eq_true_eq] at this
+    exact this
+  have hpaths : p2k.map (·.1) = flat.map (·.1) := by
+    rw [getTypeLayout_p2k_paths _ _ _ hm, f5]
+  obtain ⟨T, hT1, hT2⟩ := exists_tri p2k flat hpaths
+  have hTp : (T.map (·.1)).Nodup := by
+    have := (pairArgs_paths (.pair a l r)).1
+    rw [← f5, hT2, List.map_map] at this
+    exact this
+  have hTk : (T.map (·.2.1)).Nodup := by
+    rw [hT1, List.map_map] at hnames
+    exact hnames
+  have hrec := recordOf_tri T hTp hTk [] T rfl
+  simp only [List.map_nil] at hrec
+  refine ⟨T.map fun t => (t.2.1, t.2.2), ?_, ?_⟩
+  · rw [hT1, hT2, hrec]; rfl
+  · rw [hT1, List.map_map, List.map_map]; rfl
+
 end Impl.PyConv
